@@ -150,4 +150,4 @@ def strategy(tier):
 
 
 def budget(tier):
-    return {"examples": 300, "shards": 1} if tier == "quick" else {"examples": 1500, "shards": 16}
+    return {"examples": 600, "shards": 1} if tier == "quick" else {"examples": 1500, "shards": 16}
